@@ -606,6 +606,44 @@ theorem kf_hex_gap0_shared_edge (half inner c : K) :
   · simp [hexSide]
   · simp [hexSide]; linarith
 
+/-! ### cross-helper: `util.centroid` of a drawn shape is the origin sample -/
+
+/-- **any image that is unchanged by the half-turn about the origin sample `(⌊n₀/2⌋, ⌊n₁/2⌋)` and is clear of the leading border row /
+column when that axis is even** (the mirror image of index 0 on an even axis is index n: outside the array) has its weighted centroid
+(`util.centroid`, any scalar: antialiased values included) at the origin sample: numerators `⌊n₀/2⌋·T`, `⌊n₁/2⌋·T` over the total `T` -/
+theorem centroid_of_centred_image (n0 n1 : ℕ) (g : Int → Int → K)
+    (hsym : ∀ i j : Int, g (2 * ((n0 : Int) / 2) - i) (2 * ((n1 : Int) / 2) - j) = g i j)
+    (hr : n0 % 2 = 0 → ∀ j : Int, g 0 j = 0) (hc : n1 % 2 = 0 → ∀ i : Int, g i 0 = 0) :
+    centroidNumK ⟨n0, n1, g⟩ = (((n0 / 2 : ℕ) : K) * (centroidNumK ⟨n0, n1, g⟩).2.2, ((n1 / 2 : ℕ) : K) * (centroidNumK ⟨n0, n1, g⟩).2.2,
+      (centroidNumK ⟨n0, n1, g⟩).2.2) := by
+  apply centroid_half_turnK
+  intro i j hi hj hne
+  have hi0 : n0 % 2 = 0 → i ≠ 0 := fun h e => hne (by rw [e]; exact hr h j)
+  have hj0 : n1 % 2 = 0 → j ≠ 0 := fun h e => hne (by rw [e]; exact hc h i)
+  refine ⟨by omega, by omega, by omega, by omega, ?_⟩
+  have := hsym i j
+  rw [← this]
+  congr 1 <;> · push_cast [Nat.cast_sub (show i ≤ 2 * (n0 / 2) by omega), Nat.cast_sub (show j ≤ 2 * (n1 / 2) by omega)]; omega
+
+/-- **the centroid of a drawn circle, rectangle (any rotation) or hexagon with zero shift is the origin sample `(⌊n₀/2⌋, ⌊n₁/2⌋)`** —
+`util.centroid` and `shape.*` share the centre convention — whenever the shape is clear of the leading border row / column of an even axis
+(`hex_clear_of_border` gives this for the segment arrays; a shape that touches the border is cropped asymmetrically) -/
+theorem centroid_of_drawn_shapes (sqrt : K → K) (half inner : K) (sinT cosT : Nat → K) (n0 n1 : ℕ) (radius width height ca sa : K) (aa : Bool)
+    (hs : ∀ n, n < 3 → sinT (n + 3) = -sinT n) (hcs : ∀ n, n < 3 → cosT (n + 3) = -cosT n) :
+    let circ := fun i j : Int => circleAt sqrt half n0 n1 radius 0 0 aa i j
+    let rect := fun i j : Int => rectangleAt half n0 n1 width height 0 0 ca sa aa i j
+    let hex := fun i j : Int => hexagonAt half inner sinT cosT n0 n1 0 0 aa i j
+    ∀ g ∈ [circ, rect, hex], (n0 % 2 = 0 → ∀ j : Int, g 0 j = 0) → (n1 % 2 = 0 → ∀ i : Int, g i 0 = 0) →
+      centroidNumK ⟨n0, n1, g⟩ = (((n0 / 2 : ℕ) : K) * (centroidNumK ⟨n0, n1, g⟩).2.2, ((n1 / 2 : ℕ) : K) * (centroidNumK ⟨n0, n1, g⟩).2.2,
+        (centroidNumK ⟨n0, n1, g⟩).2.2) := by
+  intro circ rect hex g hg hr hc
+  apply centroid_of_centred_image n0 n1 g _ hr hc
+  simp only [List.mem_cons, List.mem_nil_iff, or_false] at hg
+  rcases hg with rfl | rfl | rfl
+  · intro i j; exact (circle_rect_half_turn sqrt half n0 n1 radius width height ca sa aa i j).1
+  · intro i j; exact (circle_rect_half_turn sqrt half n0 n1 radius width height ca sa aa i j).2
+  · intro i j; exact hexagon_half_turn half inner sinT cosT n0 n1 aa i j hs hcs
+
 end Shapes
 
 /-- **segments do not overlap when the gap is positive** (judged on non-antialiased masks, both orientations): two segments
